@@ -574,6 +574,44 @@ func c09gen(c *h.Ctx, yield func(*h.Case)) {
 		}
 		emit("recvloop-tcp", ops...)
 	}
+	// the same on the in-memory transport (round 7): the peer's end is a LocalConn the harness holds; what it can do is
+	// send frames (decodable or not) and close
+	emitTo("corpus", "corpus-recvloop-local", "c09 open local 0", "c09 handler 10", "c09 handler 11",
+		"c09 rawconn 1 id", "c09 rawconn 1 id", "c09 rawconn 2 id", "c09 rawconn 1 id",
+		"c09 rawev 1 0 gxg", "c09 rawev 1 1 gc", "c09 conns 1", "c09 rawev 2 0 xc", "c09 rawev 1 2 ggxg", "c09 rawev 1 0 c", "c09 conns 1",
+		"c09 send router 0 1", "c09 rawev 1 2 xgc", "c09 conns 1", "c09 send router 1 1")
+	for i, nl := 0, c.Pick(10, 120); i < nl; i++ {
+		ops := []string{"c09 open local 0"}
+		for j := r.Intn(3); j > 0; j-- {
+			ops = append(ops, fmt.Sprintf("c09 handler %d", 10+j))
+		}
+		open := map[int][]int{}
+		next := map[int]int{}
+		for j, m := 0, 3+r.Intn(8); j < m; j++ {
+			p := 1 + r.Intn(2)
+			if len(open[p]) == 0 || (r.Intn(3) == 0 && next[p] < 4) {
+				ops = append(ops, fmt.Sprintf("c09 rawconn %d id", p))
+				open[p] = append(open[p], next[p])
+				next[p]++
+				continue
+			}
+			ki := r.Intn(len(open[p]))
+			k := open[p][ki]
+			ev := ""
+			for x := r.Intn(4); x > 0; x-- {
+				ev += string("gx"[r.Intn(2)])
+			}
+			if ev == "" || r.Intn(2) == 0 {
+				ev += "c"
+				open[p] = append(open[p][:ki], open[p][ki+1:]...)
+			}
+			ops = append(ops, fmt.Sprintf("c09 rawev %d %d %s", p, k, ev))
+			if r.Intn(3) == 0 {
+				ops = append(ops, fmt.Sprintf("c09 conns %d", p))
+			}
+		}
+		emit("recvloop-local", ops...)
+	}
 	// ... and a peer that goes silent: the (scaled) read time-out ends the loop
 	emitTo("corpus", "recvloop-timeout-corpus-inside-frame", "c09 open tcp 0", "c09 handler 10", "c09 rawconn 1 id", "c09 rawev 1 0 gu", "c09 conns 1",
 		"c09 rawconn 1 id", "c09 rawev 1 1 v", "c09 conns 1")
